@@ -291,6 +291,8 @@ func WorkerMain(args []string) int {
 		}
 	}
 	out.AllSigs = len(sigAll)
+	// (scripts under test may print to stdout without a trailing newline: printf)
+	os.Stdout.WriteString("\n")
 	enc := json.NewEncoder(os.Stdout)
 	if err := enc.Encode(&out); err != nil {
 		return 2
